@@ -70,3 +70,51 @@ func FilterPos(xs []int) []int {
 	}
 	return out
 }
+
+// D is a small struct appended to a slice (struct-element append model).
+type D struct {
+	Pos  int
+	Code string
+}
+
+// Collect records a D for every positive element.
+func Collect(xs []int) []D {
+	var ds []D
+	for _, x := range xs {
+		if x > 0 {
+			ds = append(ds, D{Pos: x, Code: "c"})
+		}
+	}
+	return ds
+}
+
+type Fix struct{ Msg string }
+
+type D2 struct {
+	Pos   int
+	Text  string
+	Code  string
+	Fixes []Fix
+}
+
+type Stmt struct{ Pos int }
+type Chg struct {
+	Xs   []int
+	Stmt *Stmt
+}
+
+// Collect2 mirrors the shape of the destructive analyzer: nested loops, a struct with a slice field.
+func Collect2(cs []*Chg) []D2 {
+	var ds []D2
+	for _, sc := range cs {
+		for _, x := range sc.Xs {
+			switch {
+			case x > 10:
+				ds = append(ds, D2{Pos: sc.Stmt.Pos, Code: "a", Text: "big"})
+			case x > 0:
+				ds = append(ds, D2{Pos: sc.Stmt.Pos, Code: "c", Text: "pos", Fixes: []Fix{{Msg: "m"}}})
+			}
+		}
+	}
+	return ds
+}
